@@ -118,6 +118,50 @@ class Eraser(object):
         self.aliases = aliases
         self.opts = opts
         self.problems = []
+        # locals that exist only for the diagnostics: every value they get is pure (or a diagnostic callee, `write = debug.write`) and
+        # every read is the callee or an argument of a diagnostic call statement
+        self.callee_alias = {}
+        self.diag_locals = set()
+        assigns, loads = {}, {}
+        for n in q.scope_nodes(fi.node):
+            if isinstance(n, ast.Assign) and len(n.targets) == 1 and isinstance(n.targets[0], ast.Name):
+                assigns.setdefault(n.targets[0].id, []).append(n.value)
+            elif isinstance(n, ast.Name) and isinstance(n.ctx, ast.Load):
+                loads.setdefault(n.id, []).append(n)
+            elif isinstance(n, (ast.AugAssign, ast.For, ast.With, ast.ExceptHandler, ast.NamedExpr)):
+                for y in ast.walk(n.target if isinstance(n, (ast.AugAssign, ast.For, ast.NamedExpr)) else n):
+                    if isinstance(y, ast.Name) and isinstance(y.ctx, ast.Store):
+                        assigns.setdefault(y.id, []).append(None)
+        params = set(q.param_names(fi.node))
+        for x, vals in assigns.items():
+            if x in params or any(v is None for v in vals):
+                continue
+            if all(isinstance(v, ast.Attribute) and q.dotted(v) in DIAG_CALLEES for v in vals):
+                self.callee_alias[x] = q.dotted(vals[0])
+        for x, vals in assigns.items():
+            if x in params or any(v is None for v in vals) or x in self.callee_alias:
+                continue
+            quiet = self.problems
+            self.problems = []
+            ok = all(self.pure(v) for v in vals)
+            self.problems = quiet
+            if not ok:
+                continue
+            good = True
+            for ld in loads.get(x, []):
+                st = q.enclosing_stmt(ld)
+                c = st.value if isinstance(st, ast.Expr) and isinstance(st.value, ast.Call) else None
+                nm = (q.call_name(c) or "") if c is not None else ""
+                if c is None or not (nm in DIAG_CALLEES or nm in self.callee_alias or q.attr_call(c)[1] in DIAG_METHODS):
+                    good = False
+            if good and loads.get(x):
+                self.diag_locals.add(x)
+        for x in list(self.callee_alias):
+            for ld in loads.get(x, []):
+                par = getattr(ld, "_parent", None)
+                if not (isinstance(par, ast.Call) and par.func is ld and isinstance(getattr(par, "_parent", None), ast.Expr)):
+                    self.callee_alias.pop(x, None)
+                    break
 
     def pure(self, e):
         """Is evaluating e free of effects other than diagnostic formatting?"""
@@ -146,7 +190,7 @@ class Eraser(object):
             c = s.value
             nm = q.call_name(c) or ""
             recv, meth = q.attr_call(c)
-            if nm in DIAG_CALLEES or (meth in DIAG_METHODS):
+            if nm in DIAG_CALLEES or (meth in DIAG_METHODS) or (isinstance(c.func, ast.Name) and c.func.id in self.callee_alias):
                 args = list(c.args) + [k.value for k in c.keywords]
                 if all(self.pure(a) for a in args):
                     return True
@@ -158,6 +202,8 @@ class Eraser(object):
             if isinstance(t, ast.Name) and isinstance(s.value, ast.Call) and q.call_name(s.value) in ("utime", "time.time"):
                 return True
             if isinstance(t, ast.Name) and t.id in _LOCAL_ALIASES:
+                return True
+            if isinstance(t, ast.Name) and (t.id in self.diag_locals or t.id in self.callee_alias):
                 return True
             if isinstance(t, ast.Attribute) and t.attr in DIAG_FIELDS:
                 v = s.value
@@ -457,7 +503,13 @@ def perf_record_ready(R, ro, rule):
             for n in q.scope_nodes(m.node):
                 if isinstance(n, ast.Assign) and any(q.src(t) == "self." + fld for t in n.targets):
                     v = n.value
-                    okv = isinstance(v, (ast.Dict, ast.DictComp)) or (isinstance(v, ast.Call) and q.call_name(v) in ("dict", "collections.OrderedDict", "OrderedDict"))
+                    def is_dict(e):
+                        return isinstance(e, (ast.Dict, ast.DictComp)) or (isinstance(e, ast.Call) and q.call_name(e) in ("dict", "collections.OrderedDict", "OrderedDict"))
+                    okv = is_dict(v)
+                    if not okv and isinstance(v, ast.Name):
+                        # a record built in a local first
+                        lv = common.assigned_values(m.node, v.id)
+                        okv = bool(lv) and all(k_ == "expr" and is_dict(e_) for k_, e_ in lv)
                     R.check(okv, rule, "%s:%s" % (m.qualname, fld), R.site(m, n),
                             "self.%s is given a dict in %s" % (fld, m.name),
                             "%s sets self.%s = %s, but dump_perf_stats() stores into it whenever the scheduler's profiling test is true; that test and the one "
